@@ -5,6 +5,7 @@ import (
 	"math"
 	"sort"
 	"testing"
+	"time"
 
 	"github.com/peterstace/simplefeatures/geom"
 	"pgregory.net/rapid"
@@ -549,10 +550,11 @@ func c16Densify(model gm.G, g geom.Geometry, ct geom.CoordinatesType, d float64,
 
 func TestC16(t *testing.T) {
 	h.Run(t, h.Prop[C16Case]{
-		ID:          "C16",
-		Rule:        "cases = a geometry of any of the 7 types x 4 coordinate types (integer XY; empties at every position, nested collections, zero values; half valid by construction) in which every vertex carries the unique tags Z = i, M = -i, plus parameters (member coordinate types for mixed construction, Densify distance, Simplify threshold, SnapToGrid places -2..3, interpolation fraction and count). Checks: a recursive walker asserts one CoordinatesType() for the geometry and everything reachable (PointN/LineStringN/PolygonN/GeometryN, rings, DumpRings, Coordinates(), Get(i).Type, StartPoint/EndPoint, Dump, DumpCoordinates) after construction and after every operation; constructors given members of different coordinate types reduce to the common subset with values per the harness model; ForceCoordinatesType(each of 4)/Force2D = harness model exactly (also on empties); Reverse/ForceCW/ForceCCW/AsMulti*/Dump keep the multiset of full (XY,Z,M) positions; DumpCoordinates lists them in order; TransformXY changes XY only; SnapToGrid keeps Z/M and integer XY (places >= 0); Densify keeps originals in order with their tags and interpolates Z/M linearly on inserted vertices; Simplify keeps the coordinate type (also when empty) and only emits original tagged vertices; Interpolate* keep the coordinate type; WKB/WKT round trips are identical; Centroid, ConvexHull, PointOnSurface, Envelope geometry and the set operations return XY throughout. non-trivial = coordinate type != XY and (an empty member or nesting)",
-		Assumptions: []string{"gm model conversion through public constructors/accessors (read-back checked per case)"},
-		Gen:         c16Gen,
-		Check:       c16Check,
+		ID:              "C16",
+		WholeCheckLimit: 300 * time.Second,
+		Rule:            "cases = a geometry of any of the 7 types x 4 coordinate types (integer XY; empties at every position, nested collections, zero values; half valid by construction) in which every vertex carries the unique tags Z = i, M = -i, plus parameters (member coordinate types for mixed construction, Densify distance, Simplify threshold, SnapToGrid places -2..3, interpolation fraction and count). Checks: a recursive walker asserts one CoordinatesType() for the geometry and everything reachable (PointN/LineStringN/PolygonN/GeometryN, rings, DumpRings, Coordinates(), Get(i).Type, StartPoint/EndPoint, Dump, DumpCoordinates) after construction and after every operation; constructors given members of different coordinate types reduce to the common subset with values per the harness model; ForceCoordinatesType(each of 4)/Force2D = harness model exactly (also on empties); Reverse/ForceCW/ForceCCW/AsMulti*/Dump keep the multiset of full (XY,Z,M) positions; DumpCoordinates lists them in order; TransformXY changes XY only; SnapToGrid keeps Z/M and integer XY (places >= 0); Densify keeps originals in order with their tags and interpolates Z/M linearly on inserted vertices; Simplify keeps the coordinate type (also when empty) and only emits original tagged vertices; Interpolate* keep the coordinate type; WKB/WKT round trips are identical; Centroid, ConvexHull, PointOnSurface, Envelope geometry and the set operations return XY throughout. non-trivial = coordinate type != XY and (an empty member or nesting)",
+		Assumptions:     []string{"gm model conversion through public constructors/accessors (read-back checked per case)"},
+		Gen:             c16Gen,
+		Check:           c16Check,
 	})
 }
